@@ -96,4 +96,91 @@ theorem joinSlash_splitSlash (b : Bytes) : joinSlash (splitSlash b) = b := by
         | nil => simp [joinSlash] at ih ⊢; exact ih
         | cons s2 ss2 => simp [joinSlash] at ih ⊢; exact ih
 
+/-! ### `splitSlash` as "cut at the first '/'" (used by Proofs/TreeIdx: index level = segment level) -/
+
+/-- a slash-free prefix followed by '/' is the first segment -/
+theorem splitSlash_append_slash (s q : Bytes) (hs : slash ∉ s) :
+    splitSlash (s ++ slash :: q) = s :: splitSlash q := by
+  induction s with
+  | nil => simp [splitSlash]
+  | cons c cs ih =>
+    have hc : c ≠ slash := fun h => hs (by simp [h])
+    have hcs : slash ∉ cs := fun h => hs (by simp [h])
+    simp only [List.cons_append]
+    rw [splitSlash]
+    simp [hc, ih hcs]
+
+/-- a slash-free string is its own single segment -/
+theorem splitSlash_no_slash (s : Bytes) (hs : slash ∉ s) : splitSlash s = [s] := by
+  induction s with
+  | nil => simp [splitSlash]
+  | cons c cs ih =>
+    have hc : c ≠ slash := fun h => hs (by simp [h])
+    have hcs : slash ∉ cs := fun h => hs (by simp [h])
+    rw [splitSlash]
+    simp [hc, ih hcs]
+
+/-- the first segment contains no '/', and what follows it is "/" + the rest (if there is a rest) -/
+theorem splitSlash_cons (q s : Bytes) (rest : List Bytes) (h : splitSlash q = s :: rest) :
+    slash ∉ s ∧ (rest = [] → q = s) ∧
+    (rest ≠ [] → ∃ q', q = s ++ slash :: q' ∧ splitSlash q' = rest) := by
+  induction q generalizing s rest with
+  | nil =>
+    simp [splitSlash] at h
+    obtain ⟨rfl, rfl⟩ := h
+    simp
+  | cons c cs ih =>
+    rw [splitSlash] at h
+    split at h
+    · rename_i hc
+      simp at h
+      obtain ⟨rfl, rfl⟩ := h
+      refine ⟨by simp, ?_, ?_⟩
+      · intro h0; exact absurd h0 (splitSlash_ne_nil cs)
+      · intro _; exact ⟨cs, by simp [hc], rfl⟩
+    · rename_i hc
+      cases hcs : splitSlash cs with
+      | nil => exact absurd hcs (splitSlash_ne_nil cs)
+      | cons s0 ss =>
+        rw [hcs] at h
+        simp at h
+        obtain ⟨rfl, rfl⟩ := h
+        obtain ⟨i1, i2, i3⟩ := ih s0 ss hcs
+        refine ⟨?_, ?_, ?_⟩
+        · simp only [List.mem_cons, not_or]
+          exact ⟨fun h => hc h.symm, i1⟩
+        · intro h0; rw [i2 h0]
+        · intro h0
+          obtain ⟨q', e1, e2⟩ := i3 h0
+          exact ⟨q', by simp [e1], e2⟩
+
+theorem splitSlash_singleton (q s : Bytes) (h : splitSlash q = [s]) : s = q ∧ slash ∉ q := by
+  obtain ⟨h1, h2, _⟩ := splitSlash_cons q s [] h
+  have := h2 rfl
+  subst this
+  exact ⟨rfl, h1⟩
+
+theorem splitSlash_cons_cons (q s s' : Bytes) (rest : List Bytes) (h : splitSlash q = s :: s' :: rest) :
+    ∃ q', q = s ++ slash :: q' ∧ splitSlash q' = s' :: rest ∧ slash ∉ s := by
+  obtain ⟨h1, _, h3⟩ := splitSlash_cons q s (s' :: rest) h
+  obtain ⟨q', e1, e2⟩ := h3 (by simp)
+  exact ⟨q', e1, e2, h1⟩
+
+theorem trimLeftSlash_length_le (b : Bytes) : (trimLeftSlash b).length ≤ b.length := by
+  induction b with
+  | nil => simp [trimLeftSlash]
+  | cons c cs ih =>
+    unfold trimLeftSlash
+    split <;> simp <;> omega
+
+/-- `TrimLeft` leaves a string that does not start with '/' -/
+theorem trimLeftSlash_head (b : Bytes) : (trimLeftSlash b).head? ≠ some slash := by
+  induction b with
+  | nil => simp [trimLeftSlash]
+  | cons c cs ih =>
+    unfold trimLeftSlash
+    split
+    · exact ih
+    · rename_i hc; simp [hc]
+
 end Flamego
